@@ -89,9 +89,9 @@ def vertex_queries(ctx, rnd):
     else:
         for _ in range(2):
             sub = set(rnd.sample(range(1, 27), 12))
-            plan.append((1, set(rnd.sample(range(1, 27), 6)), sub, 4))
+            plan.append((1, set(rnd.sample(range(1, 27), 5)), sub, 4))
         # all 25 neighbours, multisets of <= 3 edges
-        plan.append((1, set(rnd.sample(range(1, 27), 6)), set(range(1, 27)), 3))
+        plan.append((1, set(rnd.sample(range(1, 27), 4)), set(range(1, 27)), 3))
         for _ in range(2):
             sub = mixed_sub(rnd, 2, 5, 6)
             plan.append((2, set(rnd.sample(sorted(sub), 3)) | set(rnd.sample(core_indices(2), 2)), sub, 4))
